@@ -7,7 +7,9 @@ from ..io_util import BudgetReader
 
 ID = 'C12'
 RULE = ('version-2 and version-3 dumps whose event ids are concentrated on a pool of ~10 classes / ~20 subclasses and '
-        'whose thread ids come from a pool of 4 (so that filters hit and miss); v3 dumps carry log blocks whose '
+        'whose thread ids come from a pool of 4 (so that filters hit and miss), a quarter of the records being kernel bookkeeping codes '
+        '(thread terminate / new thread / exec / exit / sched) whose arguments name pool threads and pids, half of the version-2 streams '
+        'with a terminate record naming the filtered thread; v3 dumps carry log blocks whose '
         'records may lack the process name, the pid or have thread id 0. Configurations: filter_tid in {None, pool, '
         'absent, 0}, class and subclass filters as lists or tuples (empty, singletons, overlapping, absent values, '
         'duplicates; assigned, or appended in place to the lists of the new object); for logs filter_tid and filter_process in {None, a process name, str(pid), absent}. Oracle: '
@@ -32,6 +34,24 @@ def pooled_record():
         return kmodel.record(ts | 1, data, tid, debugid)
     return st.tuples(S.u64, st.sampled_from(CLASSES), st.sampled_from(SUBCODES), st.integers(0, 50), st.integers(0, 3),
                      st.sampled_from(TIDS + [0x99]), st.binary(min_size=32, max_size=32)).map(mk)
+
+
+SPECIAL_IDS = ['TRACE_DATA_THREAD_TERMINATE', 'TRACE_DATA_THREAD_TERMINATE_PID', 'TRACE_DATA_NEWTHREAD', 'TRACE_DATA_EXEC', 'TRACE_STRING_PROC_EXIT',
+               'TRACE_LOST_EVENTS', 'MACH_SCHED', 'MACH_MKRUNNABLE', 'PERF_THD_Data', 'BSC_exit', 'BSC_thread_terminate', 'TRACE_STRING_THREADNAME']
+
+
+def special_record():
+    """records of the kernel's own bookkeeping codes whose argument words name pool threads / pids: a filter is a
+    plain predicate on each record, whatever the record says about threads"""
+    from .. import events as EV
+
+    def mk(t):
+        ts, name, q, tid, a0, a1, a2, a3 = t
+        ident = EV.by_name().get(name, 0x0700000c)
+        data = b''.join(int(x).to_bytes(8, 'little') for x in (a0, a1, a2, a3))
+        return kmodel.record(ts | 1, data, tid, (ident & ~3) | q)
+    word = st.one_of(st.sampled_from(TIDS + [0x99, 0, 77]), st.integers(0, 300))
+    return st.tuples(S.u64, st.sampled_from(SPECIAL_IDS), st.sampled_from([0, 0, 0, 1, 2, 3]), st.sampled_from(TIDS + [0x99]), word, word, word, word).map(mk)
 
 
 def config():
@@ -67,13 +87,29 @@ def new_parser(cfg, process=None):
     return p
 
 
+def with_terminate(case):
+    """version-2 case with a thread-terminate record that names the FILTERED thread (logged by that thread or by
+    another one) somewhere in the stream: later records of the thread are still records of the thread"""
+    cfg, spec = case['config'], case['spec']
+    k = case.get('terminate_at')
+    if case['version'] != 2 or k is None or cfg['tid'] is None:
+        return spec
+    from .. import events as EV
+    recs = list(spec['recs'])
+    pos = k % (len(recs) + 1)
+    by = TIDS[k % len(TIDS)] if k % 3 else cfg['tid']
+    data = b''.join(int(x).to_bytes(8, 'little') for x in (cfg['tid'], 0, 0, 0))
+    recs.insert(pos, kmodel.record(2 * k + 1, data, by, EV.by_name()['TRACE_DATA_THREAD_TERMINATE']))
+    return dict(spec, recs=recs)
+
+
 def prop_filter(ctx, case):
     from pykdebugparser.pykdebugparser import PyKdebugParser
     from pykdebugparser.kevent import Kevent
     from pykdebugparser.os_log_event import OsLogEvent
     cfg = case['config']
     if case['version'] == 2:
-        blob = files.build_v2(case['spec'])
+        blob = files.build_v2(with_terminate(case))
         logs_present = False
     else:
         blob = files.build_v3(case['spec'])
@@ -135,7 +171,7 @@ def prop_cli(ctx, case):
     """the filters as the command line offers them: kevents --tid/-cf/-sf and logs --tid/--process"""
     from pykdebugparser.pykdebugparser import PyKdebugParser
     cfg = case['config']
-    blob = files.build_v2(case['spec']) if case['version'] == 2 else files.build_v3(case['spec'])
+    blob = files.build_v2(with_terminate(case)) if case['version'] == 2 else files.build_v3(case['spec'])
     base = guard(lambda: list(PyKdebugParser().kevents(BudgetReader(blob))))
     o = {'tid': cfg['tid'], 'cf': cfg['classes'], 'sf': cfg['subclasses'], 'show_tid': case['show_tid'], 'radix': case['radix']}
     lines = guard(CLI.reference_items, 'kevents', o, blob)
@@ -184,8 +220,9 @@ PROPS = {'filter': prop_filter, 'cli': prop_cli, 'long': prop_long}
 
 
 def run(ctx):
-    recs = st.one_of(st.lists(pooled_record(), max_size=40), st.lists(pooled_record(), min_size=4, max_size=30))
-    v2 = st.fixed_dictionaries({'version': st.just(2), 'config': config(), 'traces_first': st.booleans(),
+    rec = st.one_of(pooled_record(), pooled_record(), pooled_record(), special_record())
+    recs = st.one_of(st.lists(rec, max_size=40), st.lists(rec, min_size=4, max_size=30))
+    v2 = st.fixed_dictionaries({'version': st.just(2), 'config': config(), 'traces_first': st.booleans(), 'terminate_at': st.one_of(st.none(), st.integers(0, 20)),
                                 'spec': st.fixed_dictionaries({'tm': files.threadmap(6), 'pad': st.sampled_from([0, 8]), 'recs': recs})})
     v3 = st.fixed_dictionaries({'version': st.just(3), 'config': config(), 'traces_first': st.booleans(),
                                 'spec': files.v3_spec(max_events=40, max_n=6, tids=TIDS, records_strategy=recs, log_copies=4, force_logs=True)})
